@@ -168,10 +168,15 @@ Fixpoint address_args (loaded : list bytes) (f : frame) (l : list fv) : bres fra
 (* the dispatch of __create_filter on c[0]: "negate" and the branch taken *)
 Inductive ckind := KConst | KSize | KExists | KEnvelope | KAddress | KBody | KCurrentdate | KHeader.
 
+(* the names a leading "not" can negate *)
+Definition negatable (s : bytes) : bool :=
+  beq s k_true || beq s k_false || beq s k_size || beq s k_exists || beq s k_envelope || beq s k_address ||
+  beq s k_body || beq s k_currentdate.
+
 Definition cond_kind (c0 : fv) : bool * ckind :=
   let '(negate, cname) :=
       match c0 with
-      | FS s => if starts_with kw_not s then (true, Some (skipn 3 s)) else (false, Some s)
+      | FS s => if starts_with kw_not s && negatable (skipn 3 s) then (true, Some (skipn 3 s)) else (false, Some s)
       | _ => (false, None)
       end in
   let is k := match cname with Some n => beq n k | None => false end in
